@@ -1393,6 +1393,10 @@ where
                 fat_start + BlockCount(u32::from(bpb.num_fats()) * bpb.fat_size());
             // Safe to unwrap since this is a Fat32 Type
             let info_location = bpb.fs_info_block().unwrap();
+            // The partition start comes from the MBR - don't trust it
+            if lba_start.0.checked_add(info_location.0).is_none() {
+                return Err(Error::FormatError("Info sector out of range"));
+            }
             let mut volume = FatVolume {
                 lba_start,
                 num_blocks,
